@@ -299,7 +299,7 @@ class UBXReader:
         """
 
         data = self._stream.read(size)
-        if len(data) == 0:  # EOF
+        if len(data) == 0 and size > 0:  # EOF
             raise EOFError()
         if 0 < len(data) < size:  # truncated stream
             raise UBXStreamError(
